@@ -392,6 +392,7 @@ func runClientCSPTP(e *netEnv, a []val) string {
 //	[2 optType optData patchByte8] honest answer with an end-to-end option; patchByte8 >= 0 overwrites the path type byte
 //	[3 scmpType]                  an SCMP message
 //	[4 udpLen]                    honest answer whose UDP length field is overwritten
+//	[5 authData udpLen]           both an authenticator option and an overwritten UDP length field
 func scionReply(e *netEnv, req []byte, rec val) []byte {
 	pl, srcPort, ok := scionPayload(req)
 	if !ok || len(pl) < 48 {
@@ -414,6 +415,8 @@ func scionReply(e *netEnv, req []byte, rec val) []byte {
 		h.e2e = []*slayers.EndToEndOption{{OptType: slayers.OptionType(rec.l[1].z), OptData: rec.l[2].b}}
 	case 3:
 		h.scmp = int(rec.l[1].z)
+	case 5:
+		h.e2e = []*slayers.EndToEndOption{{OptType: slayers.OptTypeAuthenticator, OptData: rec.l[1].b}}
 	}
 	b, err := buildSCION(h, ans)
 	if err != nil {
@@ -428,6 +431,10 @@ func scionReply(e *netEnv, req []byte, rec val) []byte {
 		// the UDP header sits in front of the 48-byte payload
 		if len(b) >= 56 {
 			binary.BigEndian.PutUint16(b[len(b)-48-4:], uint16(rec.l[1].z))
+		}
+	case 5:
+		if len(b) >= 56 {
+			binary.BigEndian.PutUint16(b[len(b)-48-4:], uint16(rec.l[2].z))
 		}
 	}
 	return b
